@@ -51,6 +51,21 @@ int main(){
             if (kind=="G4R"){ uspg_4d<int> g(px,py,pz,qx,qy,qz,s,0); g.place_object(7, px, py, pz); g.place_object(8, qx, qy, qz); g.update_dimensions(0, lx,ly,lz,hx_,hy,hz); run_case(g,in,true); }
             else { uspg_3d<int> g(px,py,pz,qx,qy,qz,s,0); g.place_object(7, px, py, pz); g.update_dimensions(0, lx,ly,lz,hx_,hy,hz); run_case(g,in,false); }
         }
+        else if (kind=="G4H" || kind=="G3H"){
+            // a history of interleaved insertions and neighbourhood queries on ONE grid: "P x y z" places the next object id, "Q x y z" asks
+            auto hist = [&](auto& g){
+                auto nb = g.get_nb_voxels(); int no; in >> no; int next = 0;
+                std::cout << "H";
+                for (int k = 0; k < no; k++){
+                    std::string op; in >> op; double x=rd(in), y=rd(in), z=rd(in);
+                    auto id = g.get_3d_voxel_index(x,y,z);
+                    bool oob = (id[0]>=nb[0] || id[1]>=nb[1] || id[2]>=nb[2]);
+                    if (op == "P"){ std::cout << " P " << next << (oob ? " OOB" : ""); if (!oob) g.place_object(next, x, y, z); next++; }
+                    else { std::cout << " Q"; if (oob){ std::cout << " OOB ;"; continue; } auto r = g.get_neighborhood(x,y,z); for (int o : r) std::cout << " " << o; std::cout << " ;"; }
+                }
+                std::cout << "\n"; };
+            if (kind=="G4H"){ uspg_4d<int> g(lx,ly,lz,hx_,hy,hz,s,0); hist(g); } else { uspg_3d<int> g(lx,ly,lz,hx_,hy,hz,s,0); hist(g); }
+        }
         else if (kind=="G4"){ uspg_4d<int> g(lx,ly,lz,hx_,hy,hz,s,0); run_case(g,in,true); }
         else { uspg_3d<int> g(lx,ly,lz,hx_,hy,hz,s,0); run_case(g,in,false); }
     }
